@@ -235,7 +235,11 @@ def run_selftest(prop, results, seed):
         nat = native_replay(rp)
         # the same obligations are evaluated (as a set: harnesses may evaluate an obligation once per guarded element
         # symbolically and once per concrete element natively)
-        ok = nat.get("outcome") == "not-reproduced" and not nat.get("failed") and set(nat.get("evaluated") or []) == set(w["ensures"])
+        # harnesses over guarded collections: one symbolic path stands for every presence pattern of the guarded elements,
+        # the witness follows only one of them -- natively the obligations of that one pattern are evaluated (none may fail)
+        ev = set(nat.get("evaluated") or [])
+        same = len(ev) > 0 if w.get("guarded") else ev == set(w["ensures"])
+        ok = nat.get("outcome") == "not-reproduced" and not nat.get("failed") and same
         return (r["harness"], ok, nat, w["ensures"])
 
     out = {"replayed": 0, "agree": 0, "mismatches": []}
